@@ -4,19 +4,22 @@ CHECK = {
     "engine": "E3",
     "technique": "bounded-exhaustive enumeration: all entries of the direction tables against an independent "
                  "sign-triple table; neighbour/copy wiring of the real DensitySubGridCreator for all layouts (1..3)^3 x 8 "
-                 "periodicities x all copy-level assignments of the small layouts; a packet lattice traced by a sequential "
+                 "periodicities x all copy-level assignments over {0..4} of the small layouts; a packet lattice traced by a sequential "
                  "hand-over loop through every layout dividing a 4^3 (thorough also 6^3) cell grid x 8 periodicities, "
                  "compared per cell with the single-block run and with an exact integer ray marcher on the unfolded lattice",
     "level_text": "(i) every output of output_to_input_direction, is_compatible_* on 27 elements x 6^3 signed direction "
                   "vectors (incl. signed zeros and subnormals), get_output_direction on all masks, the block-level index->exit "
                   "element, entry re-positioning and start-cell functions for all 27 classes on all blocks (1..3)^3; (ii) all 27 "
                   "layouts x 8 periodicities (x 1 or 2 cells per subgrid): 27 neighbours of every subgrid, mutuality, face "
-                  "neighbour list, subgrid boxes, position->subgrid; all 3^NS copy-level assignments for layouts with <= 4 "
-                  "subgrids and for 2x2x2 (quick: the caller-restricted ones): originals/copies tables, neighbours of copies, "
+                  "neighbour list, subgrid boxes, position->subgrid; all 5^NS copy-level assignments over {0,1,2,3,4} for "
+                  "layouts with <= 4 subgrids (level differences up to 4 in both directions between touching subgrids) and, for "
+                  "2x2x2, all 3^8 over {0,1,2} (quick: the caller-restricted ones) plus 56 assignments with levels 3 and 4 "
+                  "(checkerboards, one high-level subgrid in a low-level sea): originals/copies tables, neighbours of copies, "
                   "one-to-one pairing of equal levels, folding with distinct powers of two per copy, state push, and "
                   "update_copies from other assignments against a fresh create_copies; (iii) every layout dividing the cell grid "
                   "x 8 periodicities x three geometries (exact dyadic and inexact non-dyadic with non-zero anchors) x density "
-                  "fields x all half-cell lattice start points of the half-open box x 124 directions x 2 target depths. "
+                  "fields x all half-cell lattice start points of the half-open box x 124 directions x 2 target depths; zero "
+                  "direction components are handed over as +0.0 or -0.0 in a fixed pattern over the packet lattice. "
                   "Nothing is sampled; the continuum of packets is represented by that lattice (exhaustive refers to it).",
     "level_note": "Targets are irrational multiples of the first chord's optical depth so that absorption never ties with a "
                   "cell wall (ties are C02's subject and would make two correct floating-point runs differ); rays running "
